@@ -3,7 +3,7 @@ from __future__ import annotations
 
 import ast
 
-from engine.cfg import CFG, normalise_compare, atoms
+from engine.cfg import CFG, normalise_compare, atoms, A
 from engine.dataflow import ReachingDefs
 from engine.effects import WriteSets
 from engine.model import src, stmt_key, dotted, walk_no_nested
@@ -16,6 +16,7 @@ RULES = {
     "R-07.2": "every field stored by an immutable class's __init__ has an immutable kind (validator result, tuple/float/int/str/bytes, enum make, constify/Dict, constant, Name) – never a bare unvalidated parameter",
     "R-07.3": "Rdata.__eq__ and __hash__ derive from the same to_digestable image; ordering dunders follow the operator table over _cmp; _cmp is a mirrored three-way comparison of the digestable forms",
     "R-07.4": "Set methods that mutate self.items while iterating the other operand are guarded by `self is other` or iterate a copy",
+    "R-07.8": "an immutable wrapper copies what it wraps: dns.immutable.Dict(..., no_copy=True) is used only where the wrapped mapping's owner is retired (the listed site), never by ImmutableRdataset / record classes",
     "R-07.7": "items enter a Set's `items` only through Set.add (the hook Rdataset/RRset override to refuse foreign records, replace singletons and minimise the TTL) or by copying an already-valid set in _clone/__init__; every other growing operation reaches them via self.add / self.union_update",
     "R-07.5": "Rdataset.add: no refusal (raise) is reachable after the first write to self",
     "R-07.6": "singleton replacement and TTL minimisation are wired: clear() under is_singleton before the insert; every merging path passes update_ttl",
@@ -363,6 +364,32 @@ def run(model, rep, tier):
     dc = [r for r in raises if "DifferingCovers" in src(r.ast)]
     rep.check(len(cov) == 1 and len(dc) == 1 and cfg.edge_dominated(dc[0].id, {(cov[0].id, "t")}), "R-07.6", ad.qualname, where(ad, ad.node), "a signature covering another type is refused",
               "covered-type refusal changed", stmt="refuse-covers")
+    # the covers field is initialised from the first signature only while it is still unset
+    init_cov = [n for n in cfg.nodes if isinstance(n.ast, ast.Assign) and src(n.ast) == "self.covers = covers"]
+    okk = len(init_cov) == 1
+    if okk:
+        gs = [t for t in cfg.nodes if t.kind == "test" and cfg.edge_dominated(init_cov[0].id, {(t.id, "t")}) and normalise_compare(t.ast.test)[0] in ("and", "atom")]
+        have = {a for t in gs for a in atoms(normalise_compare(t.ast.test))}
+        okk = A("len(self)", "==", "0") in have and A("self.covers", "==", "dns.rdatatype.NONE") in have
+    rep.check(okk, "R-07.6", ad.qualname, where(ad, init_cov[0].ast if init_cov else ad.node), "covers is adopted from the first signature only when the set is empty AND covers is still NONE",
+              "`self.covers = covers` is not conditioned on (empty set and covers still NONE): an emptied RRSIG set with a fixed covered type silently adopts another covered type instead of raising DifferingCovers",
+              stmt="covers-init")
+    # ---------------------------------------------------------------- R-07.8
+    NO_COPY_OK = {"dns.zone.ImmutableVersion.__init__": "wraps the node map of the writable version it replaces; that version is discarded by the commit"}
+    n_dict = 0
+    for f in model.all_functions():
+        for c in ast.walk(f.node):
+            if isinstance(c, ast.Call) and (dotted(c.func) or "").endswith("immutable.Dict"):
+                n_dict += 1
+                nc = c.args[1] if len(c.args) > 1 else next((k.value for k in c.keywords if k.arg == "no_copy"), None)
+                no_copy = nc is not None and not (isinstance(nc, ast.Constant) and nc.value is False)
+                if not no_copy:
+                    rep.ok("R-07.8", f.qualname, where(f, c), f"`{src(c)[:50]}` copies its argument", stmt="dict-copy")
+                elif f.qualname in NO_COPY_OK:
+                    rep.excepted("R-07.8", f.qualname, where(f, c), NO_COPY_OK[f.qualname], stmt="dict-copy")
+                else:
+                    rep.bad("R-07.8", f.qualname, where(f, c), f"`{src(c)[:60]}` wraps the caller's mapping without copying it: the 'immutable' value changes when the source is mutated afterwards", stmt="dict-copy")
+    rep.floor("R-07.8", n_dict, 3)
     rep.assume("R-07.5 considers the refusals raised by Rdataset.add itself; exceptions raised by callees (e.g. dns.ttl.make on an invalid TTL) are not followed")
     rep.meta["explanation"] = (
         "Decorator census over all value classes, provenance classification (reaching definitions) of every field store in their constructors, "
@@ -371,6 +398,12 @@ def run(model, rep, tier):
 
 
 WITNESSES = [
+    {"id": "c07-immutable-rdataset-no-copy", "rule": "R-07.8", "file": "dns/rdataset.py", "expect": "fires",
+     "old": "        self.items = dns.immutable.Dict(rdataset.items)", "new": "        self.items = dns.immutable.Dict(rdataset.items, True)"},
+    {"id": "c07-covers-adopted-when-empty", "rule": "R-07.6", "file": "dns/rdataset.py", "expect": "fires",
+     "old": "            if len(self) == 0 and self.covers == dns.rdatatype.NONE:", "new": "            if len(self) == 0:"},
+    {"id": "c07-twin-covers-condition-flipped", "rule": "R-07.6", "file": "dns/rdataset.py", "expect": "silent",
+     "old": "            if len(self) == 0 and self.covers == dns.rdatatype.NONE:", "new": "            if dns.rdatatype.NONE == self.covers and 0 == len(self):"},
     {"id": "c07-symdiff-direct-insert", "rule": "R-07.7", "file": "dns/set.py", "expect": "fires",
      "old": "            overlap = self.intersection(other)\n            self.union_update(other)\n            self.difference_update(overlap)",
      "new": "            for item in other.items:\n                if item in self.items:\n                    del self.items[item]\n                else:\n                    self.items[item] = None"},
